@@ -69,7 +69,7 @@ Record Inv (s : st) : Prop := mkInv {
                      co s m (R r) = (if rin s r && min s m then (- sto s r m)%Qc else q0);
   i_oc : forall r, oc s (R r) = (- oc s (F r))%Qc /\ (rin s r = false -> oc s (F r) = q0);
   w_fwd : forall r m, rin s r = true -> sto s r m <> q0 -> min s m = true /\ back s m r = true;
-  w_back : forall m r, min s m = true -> back s m r = true -> rin s r = true /\ sto s r m <> q0;
+  w_back : forall m r, back s m r = true -> min s m = true /\ rin s r = true /\ sto s r m <> q0;
   u_mets : forall r m, sto s r m <> q0 -> In m (mids s);
   u_rxns : forall m r, back s m r = true -> In r (rids s)
 }.
@@ -85,7 +85,7 @@ Definition LPSync (s : st) : Prop :=
   (forall r, oc s (R r) = (- oc s (F r))%Qc /\ (rin s r = false -> oc s (F r) = q0)).
 Definition WF (s : st) : Prop :=
   (forall r m, rin s r = true -> sto s r m <> q0 -> min s m = true /\ back s m r = true) /\
-  (forall m r, min s m = true -> back s m r = true -> rin s r = true /\ sto s r m <> q0).
+  (forall m r, back s m r = true -> min s m = true /\ rin s r = true /\ sto s r m <> q0).
 
 Lemma Inv_LPSync s : Inv s -> LPSync s.
 Proof. intros [A B C D E _ _ _ _]. repeat split; try apply A; try apply C; try apply D; try apply E; auto. Qed.
